@@ -431,16 +431,16 @@ func init() {
 			cases = append(cases, &CrashCase{Src: familySource(f, big), Family: "large-" + f})
 		}
 		// EQU chains whose stored expressions double at every level (symbolic term that is never combined)
-	for _, depth := range []int{8, 16, 32} {
-		var b strings.Builder
-		b.WriteString("A0\tEQU\tlab+1\n")
-		for i := 1; i <= depth; i++ {
-			fmt.Fprintf(&b, "A%d\tEQU\tA%d+A%d\n", i, i-1, i-1)
+		for _, depth := range []int{8, 16, 32} {
+			var b strings.Builder
+			b.WriteString("A0\tEQU\tlab+1\n")
+			for i := 1; i <= depth; i++ {
+				fmt.Fprintf(&b, "A%d\tEQU\tA%d+A%d\n", i, i-1, i-1)
+			}
+			fmt.Fprintf(&b, "\tMOV EAX,A%d\nlab:\n", depth)
+			cases = append(cases, &CrashCase{Src: []byte(b.String()), Family: fmt.Sprintf("equ-doubling-chain-%d", depth)})
 		}
-		fmt.Fprintf(&b, "\tMOV EAX,A%d\nlab:\n", depth)
-		cases = append(cases, &CrashCase{Src: []byte(b.String()), Family: fmt.Sprintf("equ-doubling-chain-%d", depth)})
-	}
-	// the known deep-nesting crash, under its own signature
+		// the known deep-nesting crash, under its own signature
 		cases = append(cases, &CrashCase{Src: familySource("nested-parens", 100000), Family: "deep-nesting"})
 		rep.Rule = "hostile inputs: every mnemonic of the grammar's Opcode rule (read from the tree) with 0-4 operands of every operand kind (registers of every class, immediates, strings, sized/unsized memory, defined/undefined labels and EQUs, seg:off, templates, malformed brackets) in both modes; numbers beyond 64 bits and 2^32 multiples in every numeric position; unknown and malformed directives, EQU cycles, text/template syntax; random byte strings (raw, printable, Shift_JIS/UTF-8 looking); token soup; token- and line-level mutations of valid programs; " +
 			"size families to 10^5 tokens. Monitors: worker liveness (panic value, fatal error, signal), parser virtual time (pigeon expression count at doubling sizes: a ratio >= 16 on two successive doublings is a violation), per-request CPU-time watchdog. non-trivial = input ran to an outcome (output, parse error or diagnosed exit); distinct = (family, outcome class) cells"
